@@ -277,6 +277,25 @@ def _mkval(v):
     return v["d"] if v.get("c") is None else (v["d"], dec(v["c"]))
 
 
+_SIZE_LIMIT = 20000
+
+
+def _too_big(o, budget=None):
+    """more than _SIZE_LIMIT nodes (lists, tuples, dicts and their items), counted with early exit"""
+    budget = budget or [_SIZE_LIMIT]
+    stack = [o]
+    while stack:
+        x = stack.pop()
+        budget[0] -= 1
+        if budget[0] < 0:
+            return True
+        if isinstance(x, dict):
+            stack.extend(x.values())
+        elif isinstance(x, (list, tuple)):
+            stack.extend(x)
+    return False
+
+
 def _apply(fn, vals, watch):
     """apply fn twice to fresh copies of every value; record the result and the input's context afterwards.
     `watch()` is the current encoding of the variables' var_contexts: the first time it differs from its initial
@@ -291,13 +310,17 @@ def _apply(fn, vals, watch):
             x = _mkval(v)
             try:
                 r = fn(x)
+                if _too_big(r):
+                    reps.append({"bad": "the result has more than %d nodes" % _SIZE_LIMIT})
+                    return outs
                 o = {"d": enc_data(r[0]), "c": enc(r[1])} if (isinstance(r, tuple) and len(r) == 2) else {"bad": enc(r)}
             except Exception as e:
                 o = {"e": exc_name(e)}
             if isinstance(x, tuple):
                 o["in_after"] = enc(x[1])
             reps.append(o)
-            if watch() != before:
+            # a variable that keeps state between calls can grow exponentially: stop at the first sign
+            if watch() != before or (len(reps) == 2 and _strip(reps[0]) != _strip(reps[1])):
                 return outs
     return outs
 
@@ -642,9 +665,11 @@ def _chain_oracle(case, res):
                     f"{r['args'][0]} -> {r['args'][1]} -> {r['args'][2]}")
         last_vc, last_name = r["vcs"][-1]["d"], r["names"][-1]
         for v, reps in zip(vals, r["outs"]):
-            if _strip(reps[0]) != _strip(reps[1]):
+            if any("bad" in o and isinstance(o["bad"], str) for o in reps):
+                return f"{which} applied to {v}: {[o['bad'] for o in reps if 'bad' in o][0]}"
+            if len(reps) == 2 and _strip(reps[0]) != _strip(reps[1]):
                 return (f"{which}: two applications to equal values {v} give different results: "
-                        f"{_strip(reps[0])} / {_strip(reps[1])}")
+                        f"{str(_strip(reps[0]))[:600]} / {str(_strip(reps[1]))[:600]}")
             o = reps[0]
             if "e" in o or "bad" in o:
                 if wf:
